@@ -110,6 +110,12 @@ def gen(ck):
                 t, d = msgs.random_message(rng, types=[x for x in msgs.TYPE_NAMES if x != 'sysex'])
                 desc.append((t, d))
         rts.append((desc, rng.random() < 0.5))
+    # very many messages in one file (more than any bounded internal queue would hold)
+    for nmsg in ([1025, 1500] if ck.tier == 'quick' else [1024, 1025, 2048, 5000]):
+        many = [('sysex', {'data': (i % 128, (i // 128) % 128)}) for i in range(nmsg)]
+        rts.append((many, False))
+        rts.append((many, True))
+        rts.append(([('sysex', {'data': (1, 2, 3)})] + [('clock', {})] * nmsg + [('sysex', {'data': ()})], False))
     reads = []
     for _ in range(n):
         # layouts of valid text
@@ -145,6 +151,8 @@ def gen(ck):
         except UnicodeError:
             pass
     reads += [[], [0xf0, 0xf7], [0xf0, 1, 2], [0x46], [0x46, 0x30, 0x20, 0x46, 0x37], [0xff], [0x20], [0x0a, 0x0a]]
+    # a hand-made binary file: one sysex followed by far more than a thousand other messages, then another sysex
+    reads.append([0xf0, 9, 0xf7] + [0xf8] * 1100 + [0x90, 1, 2] * 1100 + [0xf0, 0xf7])
     return rts, reads
 
 
